@@ -852,6 +852,37 @@ def fragment(fn_text: str, path: str, kind: str, ordinal) -> str:
             raise ExtractError(f"{path}: anchor lost: closure#{ordinal} not found ({len(hits)} zero-argument block closures present)")
         o = hits[ordinal - 1]
         return src.text[toks[o].end:toks[src.match[o]].start]
+    if kind == "letclosure":
+        # body (without the braces) of the block closure bound by `let [mut] NAME = |params| { ... };` - `ordinal` is NAME.
+        # The parameter list is not returned: the wrapper declares the same names, a renamed parameter fails to compile (exit 2).
+        hits = []
+        for k in src.sig:
+            if toks[k].kind == "ident" and toks[k].text == "let":
+                n = src.next_sig(k)
+                if n is not None and toks[n].text == "mut":
+                    n = src.next_sig(n)
+                if n is None or toks[n].text != str(ordinal):
+                    continue
+                n = src.next_sig(n)
+                if n is None or toks[n].text != "=":
+                    continue
+                n = src.next_sig(n)
+                if n is None or toks[n].text != "|":
+                    continue
+                n = src.next_sig(n)
+                while n is not None and toks[n].text != "|":
+                    if toks[n].kind == "punct" and toks[n].text in OPEN:
+                        n = src.match[n]
+                    n = src.next_sig(n)
+                if n is None:
+                    continue
+                n = src.next_sig(n)
+                if n is not None and toks[n].text == "{":
+                    hits.append(n)
+        if len(hits) != 1:
+            raise ExtractError(f"{path}: anchor lost: `let {ordinal} = |..| {{..}}` found {len(hits)} times")
+        o = hits[0]
+        return src.text[toks[o].end:toks[src.match[o]].start]
     if kind == "let":
         hits = []
         for k in src.sig:
